@@ -173,9 +173,11 @@ def run_case(case) -> Result:
     if rel != "unrelated":
         labels += ["name_relationship", "rel:" + rel]
 
+    target_full = [True]  # the target's own readings are complete (not just purged): it is an "other" of the others too
+
     def check(hx, alive, when):
         for j, cfg in enumerate(cfgs):
-            if j == a or j not in alive or viol:
+            if (j == a and not target_full[0]) or j not in alive or viol:
                 continue
             try:
                 want, _ = _solo(cfg, rows, tf)
@@ -211,15 +213,19 @@ def run_case(case) -> Result:
             if op["op"] == "append":
                 hx.append(mk_candles(op["rows"]))
                 rows += op["rows"]
+                target_full[0] = True
             elif op["op"] == "calculate":
                 hx.calculate()
+                target_full[0] = True
             else:  # also when the target has been removed already: a name that is no longer registered is nobody's
                 if a not in alive:
                     labels.append("op_on_removed_name")
                 if op["op"] == "purge":
+                    target_full[0] = False
                     hx.purge(names[a])
                 elif op["op"] == "recalculate":
                     hx.recalculate(names[a])
+                    target_full[0] = True
                 elif op["op"] == "remove":
                     hx.remove_indicator(names[a])
                     alive.discard(a)
